@@ -1016,3 +1016,15 @@ package keeper
 //@ loop 6 step [prune-entry-imported] $AppendConsumerAddrsToPrune.called && $AppendConsumerAddrsToPrune.consumerId == item#3.ChainId && $AppendConsumerAddrsToPrune.pruneTs == item#3.PruneTs && $AppendConsumerAddrsToPrune.consumerAddr == types.NewConsumerConsAddress(addr)
 //@ ensures [id-imported] $SetValidatorSetUpdateId.called && $SetValidatorSetUpdateId.valUpdateID == genState.ValsetUpdateId
 //@ ensures [returns-genesis-updates] $InitGenesisValUpdates.called && result == $InitGenesisValUpdates.ret
+
+//@ func Keeper.InitGenesisValUpdates
+//@ let bonded := old(k.stakingKeeper.GetBondedValidatorsByPower(ctx))
+//@ let M := old(k.GetMaxProviderConsensusValidators(ctx))
+//@ requires [W-params] M >= 0
+//@ loop 1 invariant [idx] 0 <= _i && _i <= len(valSet) && len(reducedValSet) == len(valSet)
+//@ loop 1 invariant [pure] S == old(S) && E == old(E) && X == old(X)
+//@ loop 1 step [created-in-place] k.CreateProviderConsensusValidator(ctx, val).1 == nil ==> reducedValSet[_i - 1] == k.CreateProviderConsensusValidator(ctx, val).0
+//@ loop 2 invariant [idx] 0 <= _i && _i <= len(reducedValSet) && len(valUpdates) == len(reducedValSet)
+//@ loop 2 step [update-mirrors-stored] valUpdates[_i - 1].Power == reducedValSet[_i - 1].Power
+//@ ensures [top-m-only] len(result) == min(M, len(bonded.0))
+//@ ensures [stored-is-returned] $SetLastProviderConsensusValSet.called && $SetLastProviderConsensusValSet.nextValidators == reducedValSet && len(result) == len(reducedValSet)
